@@ -40,8 +40,10 @@ type c15Child struct {
 
 var c15Cur *c15Child
 
-func c15Spawn() *c15Child {
-	cmd := exec.Command(os.Args[0], "c15.child")
+func c15Spawn() *c15Child { return c15SpawnLeg("c15.child") }
+
+func c15SpawnLeg(childLeg string) *c15Child {
+	cmd := exec.Command(os.Args[0], childLeg)
 	in, _ := cmd.StdinPipe()
 	outp, _ := cmd.StdoutPipe()
 	eb := &bytes.Buffer{}
@@ -77,19 +79,22 @@ func (c *c15Child) kill() {
 	c.cmd.Wait()
 }
 
-func c15Parent(line string) string {
-	if c15Cur != nil && c15Cur.served >= 150 {
-		c15Cur.kill()
-		c15Cur = nil
+func c15Parent(line string) string { return c15ParentOf(&c15Cur, "c15.child", line) }
+
+// c15ParentOf: the same child management for another child leg (used by c16.server)
+func c15ParentOf(cur **c15Child, childLeg string, line string) string {
+	if (*cur) != nil && (*cur).served >= 150 {
+		(*cur).kill()
+		(*cur) = nil
 	}
-	if c15Cur == nil {
-		c15Cur = c15Spawn()
+	if (*cur) == nil {
+		*cur = c15SpawnLeg(childLeg)
 	}
-	c := c15Cur
+	c := (*cur)
 	c.served++
 	if _, err := io.WriteString(c.in, line+"\n"); err != nil {
 		c.kill()
-		c15Cur = nil
+		(*cur) = nil
 		return "CRASH write " + err.Error()
 	}
 	type ans struct {
@@ -108,7 +113,7 @@ func c15Parent(line string) string {
 		}
 		// child died: classify like lib/vlib.py does for a dead worker
 		c.cmd.Wait()
-		c15Cur = nil
+		(*cur) = nil
 		e := c.errBuf.String()
 		switch {
 		case strings.Contains(e, "stack overflow") || strings.Contains(e, "goroutine stack exceeds"):
@@ -132,7 +137,7 @@ func c15Parent(line string) string {
 		}
 	case <-time.After(30 * time.Second):
 		c.kill()
-		c15Cur = nil
+		(*cur) = nil
 		return "TIMEOUT"
 	}
 }
@@ -249,6 +254,19 @@ func c15ParseDef(s string) c15Def {
 	return d
 }
 
+// c15Remark: a comment line that is not a (valid) annotation, chosen by the line number
+func c15Remark(ln int) string {
+	switch ln % 4 {
+	case 0:
+		return "-- current leaf"
+	case 1:
+		return "-- luacheck: ignore"
+	case 2:
+		return "---@zznote kept for later"
+	}
+	return "--- see the manual"
+}
+
 const c15Prefix = "zq" // placeholder member names written into the probe lines; never a field name
 
 func c15Labels(ls []string) string {
@@ -337,10 +355,34 @@ func c15Case(line string) string {
 			declCount[fl.name]++
 		}
 	}
+	// remark lines (not annotations) inside the comment blocks of the definitions: every line between a header and
+	// the block's last line that the case leaves unassigned
+	for _, d := range defs {
+		for ln := d.hdr + 1; ln <= d.last; ln++ {
+			if files[d.file][ln] == "" {
+				put(d.file, ln, c15Remark(ln))
+			}
+		}
+	}
 	tyText := c15RenderType(ty)
-	if !put(f0, l0, "---@type "+tyText) || !put(f0, l0+1, "local v") ||
-		!put(f0, l0+3, "---@type "+tyText) || !put(f0, l0+4, "local d") {
-		return "BAD-CASE layout var"
+	// query letter R: a remark line between the ---@type line of v and `local v`; S: the same for d.  The five lines
+	// l0..l0+4 are kept (the model's sites are l0 and l0+3, no definition lies in between)
+	switch {
+	case strings.Contains(q, "R"):
+		if !put(f0, l0, "---@type "+tyText) || !put(f0, l0+1, c15Remark(l0)) || !put(f0, l0+2, "local v") ||
+			!put(f0, l0+3, "---@type "+tyText) || !put(f0, l0+4, "local d") {
+			return "BAD-CASE layout var"
+		}
+	case strings.Contains(q, "S"):
+		if !put(f0, l0, "---@type "+tyText) || !put(f0, l0+1, "local v") ||
+			!put(f0, l0+2, "---@type "+tyText) || !put(f0, l0+3, c15Remark(l0)) || !put(f0, l0+4, "local d") {
+			return "BAD-CASE layout var"
+		}
+	default:
+		if !put(f0, l0, "---@type "+tyText) || !put(f0, l0+1, "local v") ||
+			!put(f0, l0+3, "---@type "+tyText) || !put(f0, l0+4, "local d") {
+			return "BAD-CASE layout var"
+		}
 	}
 	// every definition's LastLine must be the end of the comment block that contains its header
 	for _, d := range defs {
@@ -352,7 +394,7 @@ func c15Case(line string) string {
 			return fmt.Sprintf("BAD-CASE layout last %d != %d", e, d.last)
 		}
 	}
-	if files[f0][l0-1] != "" || files[f0][l0+2] != "" || files[f0][l0+5] != "" {
+	if files[f0][l0-1] != "" || (files[f0][l0+2] != "" && !strings.ContainsAny(q, "RS")) || files[f0][l0+5] != "" {
 		return "BAD-CASE layout var not isolated"
 	}
 
